@@ -3,6 +3,7 @@ package main
 import (
 	"bufio"
 	"encoding/json"
+	"regexp"
 	"strconv"
 	"strings"
 
@@ -44,6 +45,7 @@ type evalObs struct {
 	Min1   evalRun `json:"omin"`
 	Full1  evalRun `json:"ofull"`
 	Tight1 evalRun `json:"otight"`
+	XTen   evalRun `json:"oxten"` // the minimal rendering with the variable x spelled x10 (same values)
 }
 
 func evalStore(name string) *interp.ExecEnv {
@@ -119,13 +121,48 @@ func evalText(expr, store string) evalRun {
 	return r
 }
 
+var reX = regexp.MustCompile(`\bx\b`)
+
+// evalTextRenamed evaluates the expression with x renamed to x10; the
+// observation is reported under the name x.
+func evalTextRenamed(expr, store string) evalRun {
+	expr = reX.ReplaceAllString(expr, "x10")
+	once := func() (r evalRun) {
+		defer func() {
+			if e := recover(); e != nil {
+				r.Panic = panicString(e)
+			}
+		}()
+		env := evalStore(store)
+		if v, set := env.Get("x"); set {
+			env.Set("x10", v.Value)
+		} else {
+			env.Unset("x10")
+		}
+		env.Unset("x")
+		n, err := env.Eval(expr)
+		ei := errInfo(err)
+		r.V = bytes64(int64(n))
+		r.Err, r.Msg = ei.Class, ei.Msg
+		r.F = ei.Class == "arith"
+		r.X, r.Y = varOf(env, "x10"), varOf(env, "y")
+		if r.F {
+			r.V = bytes64(0)
+		}
+		return
+	}
+	r := once()
+	r.Same = true
+	return r
+}
+
 func evalMode(in *bufio.Scanner, out *json.Encoder) error {
 	for in.Scan() {
 		var c evalCase
 		if err := json.Unmarshal(in.Bytes(), &c); err != nil {
 			return err
 		}
-		o := evalObs{evalCase: c, Min1: evalText(c.Min, c.Store), Full1: evalText(c.Full, c.Store), Tight1: evalText(c.Tight, c.Store)}
+		o := evalObs{evalCase: c, Min1: evalText(c.Min, c.Store), Full1: evalText(c.Full, c.Store), Tight1: evalText(c.Tight, c.Store), XTen: evalTextRenamed(c.Min, c.Store)}
 		if err := out.Encode(o); err != nil {
 			return err
 		}
